@@ -20,26 +20,33 @@ from vlib import cq, clist  # noqa: E402
 from translate import fluidlib as tf  # noqa: E402
 
 CLAIM = {
-    "text": "Unbounded theorems over Q (every float is a rational): the piecewise-linear table of interp1d hits its "
-            "knots, is affine between consecutive knots, continues the end segments outside, adjacent pieces meet; "
-            "argument dispatch returns results shaped like the query; constant/linear/polynomial integrals are "
-            "antisymmetric, additive and consistent with the property values (trapezoid/midpoint exactness, formal "
-            "derivative of polyint); the interpolated property's integral F(upper)-F(lower) with the exact antiderivative "
-            "(cumulative trapezoids + partial segment) is antisymmetric, additive for all limits and, inside any piece "
-            "incl. the extrapolated ends, equal to the exact integral of the property; mass fractions sum to one, mass<->"
-            "molar conversion is inverse and the two molar-mass forms agree, mixture density/heat capacity/molar mass/"
-            "viscosity lie within component bounds for any number of components; pump lift >= 0, = 0 for reverse "
-            "flow, = regression polynomial otherwise, array branch = map of scalar branch. Finite facts decided by "
-            "vm_compute on the regenerated library data: all tables strictly increasing, knot values reproduced, "
-            "compressibility slope = stored derivative, heating values, pump and pipe tables "
-            "well-formed. The scalar formulas and all data are regenerated from /repo each run; the hand model is "
-            "tied to the running classes by an exact (tolerance-free) correspondence on dyadic data.",
-    "note": "All theorems are closed under the global context (no axioms). Oracles: scipy interp1d (its documented "
-            "linear/extrapolate contract is the model `interp`), np.polyfit (regression coefficients are inputs of the "
-            "model; library pumps are compared with an exact rational least-squares fit at 1e-9), np.sqrt and x**1.5 "
-            "(inputs); the array code of _antiderivative is H-modelled (statements pinned by the translator). Library data are decimal, so library "
-            "queries are compared at 1e-12 relative (monitor), exactness is shown on dyadic custom properties. "
-            "std_type_reaches_pipe_unchanged is a theorem over the regenerated Pipe.csv and create_pipe mapping, tied by an in-Coq correspondence (nearest-double criterion).",
+    "text": "23 theorems over Q (every float is a rational), all closed under the global context. Unbounded: the "
+            "piecewise-linear table of interp1d hits its knots, is affine between consecutive knots, continues the end "
+            "segments, adjacent pieces meet; results are shaped like the query for every property class and the pump; "
+            "constant / linear / polynomial integrals are antisymmetric, additive and consistent (trapezoid = midpoint "
+            "exactness, formal derivative of polyint); the interpolated property's integral F(upper)-F(lower) with the exact "
+            "antiderivative is antisymmetric, additive for ALL limits and equal to the exact integral inside every piece "
+            "incl. both extrapolated ends; Sutherland value law and reference point, polynomial value = regression "
+            "polynomial; mass fractions sum to one, mass<->molar conversion is inverse, both molar-mass forms agree, "
+            "mixture density / heat capacity / molar mass / viscosity lie within component bounds (any number of "
+            "components); pump lift >= 0, 0 for reverse flow, polynomial otherwise, array branch = map scalar. Finite, by "
+            "vm_compute over data regenerated from the library files each run: tables strictly increasing, knot values "
+            "reproduced, compressibility slope = stored derivative for every fluid, heating values / pump / pipe tables "
+            "well-formed, and std_type_reaches_pipe_unchanged for every row of Pipe.csv through the create_pipe column "
+            "mapping regenerated from create.py. The scalar formulas come from the source (T-tie); the hand model is tied "
+            "to the running classes by tolerance-free correspondences inside Coq: dyadic data in every argument form and "
+            "dtype (float / int / bool scalars, lists, tuples, int32/int64/float arrays, Series), the numbers held by the "
+            "call_lib property objects = nearest doubles of the decimal file text, created pipe cells = nearest doubles of "
+            "Pipe.csv.",
+    "note": "No axioms. Oracles (inputs of the model, not proved): scipy interp1d (its linear/extrapolate contract IS the "
+            "model `interp`, exercised exactly), np.polyfit (regression coefficients are inputs; library pumps are compared "
+            "with an exact rational least-squares fit at 1e-9), np.sqrt and x**1.5 (function arguments). H-modelled array "
+            "code pinned statement by statement by the translator: _antiderivative, PumpStdType array branch. Monitors "
+            "only (not theorems): interpolated library values between / at knots through the public getters (1e-12 "
+            "relative, decimal data), mixtures of real library gases (18*2^-53 relative = derived rounding bound), "
+            "u_w_per_m2k derived from u_w_per_mk (pi), user-defined pipe types with per-pipe overrides (library dict not "
+            "mutated), integral laws on the running objects. interp_continuous is 'pieces meet + each piece Lipschitz', "
+            "not an epsilon-delta statement.",
     "technique": "Coq proof over generated kernels and generated library data + hand model tied by exact correspondence",
     "design": "DESIGN.md 4/C19 + design_notes/C19.md",
 }
@@ -341,6 +348,36 @@ def cases_pump(ctx, cs, n):
                 ctx.count("pump_" + fname)
 
 
+POW15 = "(fun r => if Qeq_bool r 1 then 1 else if Qeq_bool r 4 then 8 else if Qeq_bool r (1 # 4) then (1 # 8) else 0)"
+
+
+def cases_sutherland(ctx, cs, n):
+    """FluidPropertySutherland on data where every float operation is exact: T/t0 in {1, 4, 1/4} (x**1.5 = 1, 8, 1/8
+    exactly), t_sutherland + T a power of two; x**1.5 is an oracle of the model (table POW15)"""
+    from pandapipes.properties.fluids import FluidPropertySutherland
+    rng = ctx.rng
+    for _ in range(n):
+        t0 = Fr(rng.choice([64, 128, 256]))
+        x = t0 * rng.choice([1, 4, Fr(1, 4)])
+        p2 = Fr(2) ** rng.randint(int(x).bit_length(), int(x).bit_length() + 2)
+        ts = p2 - x
+        eta0 = Fr(rng.randint(1, 4096), 2 ** 22)
+        prop = FluidPropertySutherland(float(eta0), float(t0), float(ts))
+        for qu in (("s", x), ("v", [x] * rng.randint(1, 4))):
+            for fname, arg in forms(rng, qu):
+                if fname.startswith(("list", "tuple")):
+                    continue      # args[0] / self.t0 on a Python list is not pandapipes' documented use (arrays, Series)
+                cs.add("elementwise (sutherland_value %s %s %s %s) %s" % (POW15, q(eta0), q(t0), q(ts), cquery(qu)),
+                       call(prop.get_at_value, arg),
+                       {"fn": "FluidPropertySutherland.get_at_value", "eta0": str(eta0), "t0": str(t0), "t_sutherland": str(ts),
+                        "arg_form": fname, "arg": str(qu[1])})
+        r = call(prop.get_at_integral_value, 300., 280.)
+        if r[0] != "e" or "UserWarning" not in r[1]:
+            ctx.violation({"fn": "FluidPropertySutherland.get_at_integral_value", "clause": "documented_not_implemented"},
+                          "the Sutherland integral is documented as not implemented (raises UserWarning); got %r" % (r,), {})
+        ctx.count("sutherland")
+
+
 def pow2_split(rng, n, exp):
     """n positive dyadic terms summing to 2**exp"""
     total = Fr(2) ** exp
@@ -544,6 +581,114 @@ def library_items(ctx):
                               "call_lib(%r) has a %s property but the library has no file for it" % (fl, key), {})
         ctx.case({"library_fluid": fl, "tables": {p: len(data[fl][p]) for p in ("density", "viscosity", "heat_capacity")}},
                  True, key="lib:" + fl)
+    return items
+
+
+def corr_library_loaded(ctx):
+    """what np.loadtxt put into the property objects of every call_lib fluid is, number by number, the double
+    nearest to the decimal literal of the data file (|float - decimal| <= |decimal| 2^-53), decided in Coq against
+    the regenerated tables.  This ties Gen/FluidData.v to the loader exactly; interpolated values stay a monitor."""
+    import numpy as np
+    import pandapipes
+    nl, table, data = tf.read_fluid_library()
+    lines, descr = [], []
+    for fl in nl["_LIQUIDS"] + nl["_GASES"]:
+        fluid = pandapipes.call_lib(fl)
+        rec = "fluid_" + fl
+        for prop, field in (("density", "f_density"), ("viscosity", "f_viscosity"), ("heat_capacity", "f_heat_capacity")):
+            g = fluid.all_properties[prop].prop_getter
+            obs = ctab([(Fr(float(a)), Fr(float(b))) for a, b in zip(np.asarray(g.x), np.asarray(g.y))])
+            lines.append("table_loaded_ok (%s %s) %s" % (field, rec, obs))
+            descr.append({"fn": "call_lib", "fluid": fl, "prop": prop, "clause": "library_data_loaded"})
+        lin = fluid.all_properties["compressibility"]
+        consts = [("f_compr_slope", lin.slope), ("f_compr_offset", lin.offset),
+                  ("f_molar_mass", fluid.all_properties["molar_mass"].value),
+                  ("f_der_compressibility", fluid.all_properties["der_compressibility"].value)]
+        for field, val in consts:
+            lines.append("nearest_double_b (%s %s) %s" % (field, rec, q(Fr(float(val)))))
+            descr.append({"fn": "call_lib", "fluid": fl, "prop": field, "clause": "library_data_loaded", "value": float(val)})
+        for key, field in (("lhv", "f_lhv"), ("hhv", "f_hhv")):
+            if key in fluid.all_properties:
+                lines.append("match %s %s with Some v => nearest_double_b v %s | None => false end"
+                             % (field, rec, q(Fr(float(fluid.all_properties[key].value)))))
+                descr.append({"fn": "call_lib", "fluid": fl, "prop": key, "clause": "library_data_loaded"})
+    txt = HEAD.replace("Gen.StdTypeData.", "Gen.StdTypeData C19.Proofs.") + \
+        "Definition oks : list bool := [\n%s\n].\nEval vm_compute in (summary oks).\nEval vm_compute in oks.\n" % ";\n".join(lines)
+    trip, out = ctx.coq_counts(txt, "library_loaded")
+    if not trip:
+        ctx.broken("correspondence", "library data vs loader (coqc failed)", out[-1000:])
+        return
+    n, m, first = trip[0]
+    ctx.corr("Gen/FluidData.v (decimal text) == numbers held by the call_lib property objects (nearest-double criterion, exact)",
+             n, m)
+    if m:
+        import re
+        flags = re.findall(r"\b(true|false)\b", out.split("=", 2)[-1])
+        bad = [i for i, f in enumerate(flags) if f == "false"] if len(flags) == len(lines) else [first]
+        for i in bad[:3]:
+            d = descr[i]
+            ctx.violation({"fn": "call_lib", "clause": "library_data_loaded", "fluid": d["fluid"], "prop": d["prop"]},
+                          "call_lib(%r): the numbers of property %s differ from the data file (not the nearest doubles of "
+                          "its decimal text, or a different number of rows)" % (d["fluid"], d["prop"]), d)
+
+
+def real_gas_mixture_items(ctx):
+    """calculate_mixture_* on REAL library gases (component values read through the property objects) with dyadic
+    fractions: the observed component values are shipped as exact rationals, the Q model is evaluated on them and the
+    result must agree within the rounding of the float operations: (2k + 6) 2^-53 relative for k <= 6 components
+    (k products / quotients, a pairwise sum, one division; all terms positive)"""
+    import numpy as np
+    from pandapipes.properties import properties_toolbox as tb
+    from pandapipes.properties.fluids import FluidPropertyInterExtra, FluidPropertyConstant
+    root = os.path.join(tf.src_root(), "properties")
+    comps = [d for d in sorted(os.listdir(root)) if os.path.isdir(os.path.join(root, d)) and
+             all(os.path.exists(os.path.join(root, d, f + ".txt")) for f in ("density", "heat_capacity", "molar_mass", "viscosity"))]
+    props = {c: {"density": FluidPropertyInterExtra.from_path(os.path.join(root, c, "density.txt")),
+                 "heat_capacity": FluidPropertyInterExtra.from_path(os.path.join(root, c, "heat_capacity.txt")),
+                 "viscosity": FluidPropertyInterExtra.from_path(os.path.join(root, c, "viscosity.txt")),
+                 "molar_mass": FluidPropertyConstant.from_path(os.path.join(root, c, "molar_mass.txt"))} for c in comps}
+    rng = ctx.rng
+    items = []
+
+    def pairs(a, b):
+        return clist(["(%s, %s)" % (q(Fr(float(x))), q(Fr(float(y)))) for x, y in zip(a, b)])
+    for _ in range(6 if ctx.quick else 150):
+        k = rng.randint(2, min(6, len(comps)))
+        sel = rng.sample(comps, k)
+        parts = [rng.randint(1, 32) for _ in sel]
+        tot = sum(parts)
+        scale_to = 64
+        x = [Fr(p_, 1) for p_ in parts]
+        x = [v / tot for v in x]
+        x = [Fr(round(v * scale_to), scale_to) for v in x]
+        x[-1] = 1 - sum(x[:-1])
+        if min(x) <= 0:
+            continue
+        xa = np.array([float(v) for v in x])
+        M = np.array([float(props[c]["molar_mass"].value) for c in sel])
+        d = {"components": sel, "molar_fractions": [str(v) for v in x]}
+        w = tb.calculate_mass_fraction_from_molar_fraction(xa, M)
+        items.append(["RVec (mass_from_molar %s)" % pairs(xa, M), norm(w),
+                      dict(d, fn="calculate_mass_fraction_from_molar_fraction"), Fr(0)])
+        items.append(["RScalar (mix_arith %s)" % pairs(xa, M),
+                      call(lambda: tb.calculate_mixture_molar_mass(M, components_molar_proportions=xa)),
+                      dict(d, fn="calculate_mixture_molar_mass", form="molar"), Fr(0)])
+        items.append(["RScalar (mix_harmonic %s)" % pairs(w, M),
+                      call(lambda: tb.calculate_mixture_molar_mass(M, components_mass_proportions=w)),
+                      dict(d, fn="calculate_mixture_molar_mass", form="mass"), Fr(0)])
+        temps = np.array([273.15 + rng.randint(0, 60) for _ in range(rng.randint(1, 3))])
+        rho = np.array([[float(v) for v in props[c]["density"].get_at_value(temps)] for c in sel])
+        cp = np.array([[float(v) for v in props[c]["heat_capacity"].get_at_value(temps)] for c in sel])
+        items.append(["RVec (columnwise mix_harmonic %s)" % clist([pairs(w, rho[:, j]) for j in range(len(temps))]),
+                      call(tb.calculate_mixture_density, rho, np.asarray(w)),
+                      dict(d, fn="calculate_mixture_density", form="2d", temperatures=[float(t) for t in temps]), Fr(0)])
+        items.append(["RVec (columnwise mix_arith %s)" % clist([pairs(w, cp[:, j]) for j in range(len(temps))]),
+                      call(tb.calculate_mixture_heat_capacity, cp, np.asarray(w)),
+                      dict(d, fn="calculate_mixture_heat_capacity", form="2d", temperatures=[float(t) for t in temps]), Fr(0)])
+        items.append(["RScalar (mix_harmonic %s)" % pairs(w, rho[:, 0]), call(tb.calculate_mixture_density, rho[:, 0], np.asarray(w)),
+                      dict(d, fn="calculate_mixture_density", form="1d"), Fr(0)])
+        ctx.case(d, True)
+        ctx.count("real_gas_mixture_components_%d" % k)
     return items
 
 
@@ -993,7 +1138,8 @@ def run(ctx):
     import pandapipes  # noqa: F401
     n = 6 if ctx.quick else 120
     groups = [("interextra", cases_interextra, n), ("linear_constant", cases_linear_constant, n),
-              ("polynomial", cases_polynomial, n), ("pump", cases_pump, 3 * n), ("mixture", cases_mixture, n)]
+              ("polynomial", cases_polynomial, n), ("sutherland", cases_sutherland, n), ("pump", cases_pump, 3 * n),
+              ("mixture", cases_mixture, n)]
     for gname, fn, cnt in groups:
         cs = Cases()
         try:
@@ -1016,7 +1162,13 @@ def run(ctx):
         if bad:
             report_mismatches(ctx, cs.items, bad, "exact")
     # ---- library monitors, evaluated in Coq against the regenerated tables
-    for mname, fn, tol in (("library_fluids", library_items, Fr(1, 10 ** 12)), ("library_pumps", monitor_pumps, Fr(1, 10 ** 11))):
+    try:
+        corr_library_loaded(ctx)
+    except Exception:
+        import traceback
+        ctx.broken("harness", "library loaded correspondence", traceback.format_exc()[-1200:])
+    for mname, fn, tol in (("library_fluids", library_items, Fr(1, 10 ** 12)), ("library_pumps", monitor_pumps, Fr(1, 10 ** 11)),
+                           ("real_gas_mixtures", real_gas_mixture_items, Fr(18, 2 ** 53))):
         try:
             items = fn(ctx)
         except Exception:
@@ -1030,7 +1182,8 @@ def run(ctx):
             continue
         bad, total = r
         ctx.extra.setdefault("monitors", []).append({"name": mname, "cases": total, "failures": len(bad),
-                                                     "tolerance": "1e-12 relative (decimal data read as floats)"})
+                                                     "tolerance": "18 * 2^-53 relative (derived rounding bound of the float operations)"
+                                                     if mname == "real_gas_mixtures" else "1e-12 relative (decimal data read as floats)"})
         if bad:
             report_mismatches(ctx, items, bad, "library")
     for mon in (monitor_laws, monitor_class_laws, monitor_list_limits, monitor_pipe_types, monitor_user_pipe_types,
